@@ -73,24 +73,29 @@ theorem nodup_enqueue {s : State} {id : PoolId} {h : Int} (hn : s.queue.Nodup) :
     simp at hb; subst hb
     intro e; subst e; exact hm ha
 
-theorem inv_createPool {s s' : State} {id sender desc lpt start rpb total editable} (hi : Inv s)
-    (hu : isModuleAcc sender = false)
-    (h : stepCreatePool s id sender desc lpt start rpb total editable = .ok s') : Inv s' := by
-  have hst := stakes_createPool hi.stakes h
-  obtain ⟨s1, s2, m, _, hsort, htot, hvr, hstart, h1, h2, hnone, hm, rfl⟩ := stepCreatePool_ok h
-  obtain ⟨une1, _, _⟩ := user_ne hu
-  have b1 := deductFee_ok h1
-  have b2 := (sendAll_ok h2).1
-  have b12 := b1.trans b2
-  have c2 := core_bankOnly b12 hi.core
+theorem newRules_totPos' {total rpb : CoinList} (h : ∀ c ∈ total, 0 < c.2) : ∀ r ∈ newRules total rpb, 0 < r.total := by
+  intro r hr
+  unfold newRules at hr
+  simp only [List.mem_map] at hr
+  obtain ⟨c, hc, e⟩ := hr
+  rw [← e]; exact h c hc
+
+/-- a pool created (by `CreatePool` or by the handler of a passed community-pool proposal) from a
+budget that has just arrived in the module account -/
+theorem inv_createCore {s2 s' : State} {id creator desc lpt start rpb total editable}
+    (c2 : Core s2) (hst2 : Stakes s2) (hgap : ∀ d, gap s2 d = (sumOf total d : Int))
+    (hu : isModuleAcc creator = false ∨ creator = distrAcc)
+    (hsort : sortedCoins total = true) (htot : total ≠ []) (hpos : ∀ c ∈ total, 0 < c.2)
+    (hstart2 : s2.height ≤ start)
+    (h : createPoolCore s2 id creator desc lpt start rpb total editable = .ok s') : Inv0 s' := by
+  have hst := stakes_createCore hst2 h
+  obtain ⟨m, hnone, hm, rfl⟩ := createPoolCore_ok h
   have hmin := minInterval_le hm
   -- names for the new record and state
-  generalize hnp : (Pool.mk sender desc start (start + (m : Int)) 0 editable lpt 0 (newRules total rpb)) = np at hst ⊢
-  have hh2 : s2.height = s.height := b12.height
+  generalize hnp : (Pool.mk creator desc start (start + (m : Int)) 0 editable lpt 0 (newRules total rpb)) = np at hst ⊢
   have gself : ∀ (st : State), st.pools = AMap.set s2.pools id np → getPool st id = some np :=
     fun st e => getPool_set_self _ _ _ _ e
   have hnn := c2.hnn
-  have hstart2 : s2.height ≤ start := by rw [hh2]; exact hstart
   -- no queue entry and no farmer mentions the fresh id
   have hnoq : ∀ hq, (hq, id) ∉ s2.queue := by
     intro hq hmq
@@ -101,7 +106,7 @@ theorem inv_createPool {s s' : State} {id sender desc lpt start rpb total editab
   have hnp_start : np.start = start := by rw [← hnp]
   have hnp_last : np.last = 0 := by rw [← hnp]
   have hnp_locked : np.locked = 0 := by rw [← hnp]
-  have hnp_cre : np.creator = sender := by rw [← hnp]
+  have hnp_cre : np.creator = creator := by rw [← hnp]
   have hnp_lpt : np.lpt = lpt := by rw [← hnp]
   refine ⟨?_, hst, ?_⟩
   · -- Core
@@ -123,7 +128,7 @@ theorem inv_createPool {s s' : State} {id sender desc lpt start rpb total editab
         exact htot this
       · rw [hnp_rules, newRules_denoms]; exact sorted_nodup total hsort
       · intro r hr; rw [hnp_rules] at hr; exact (hmin r hr).1
-      · intro r hr; rw [hnp_rules] at hr; exact newRules_totPos hvr r hr
+      · intro r hr; rw [hnp_rules] at hr; exact newRules_totPos' hpos r hr
       · intro r hr; rw [hnp_rules] at hr; rw [(mem_newRules hr).2]; exact Int.le_refl _
     · rw [hhe]
       refine poolsAll_set c2.time hpe ⟨by rw [hnp_last]; exact hnn, ?_, ?_⟩
@@ -207,9 +212,7 @@ theorem inv_createPool {s s' : State} {id sender desc lpt start rpb total editab
           · exact absurd (Prod.mk.inj hmq).2.symm e
   · rw [moduleAccount_iff]
     intro d
-    have g0 := (moduleAccount_iff s).mp hi.modacc d
-    have g1 := gap_deductFee une1 h1 d
-    have g2 := gap_send_in une1 h2 d
+    have g2 := hgap d
     have hbank : (enqueue { s2 with seq := s2.seq + 1, pools := AMap.set s2.pools id np } id (start + (m : Int))).bank = s2.bank := by
       unfold enqueue; split <;> rfl
     have hpe : (enqueue { s2 with seq := s2.seq + 1, pools := AMap.set s2.pools id np } id (start + (m : Int))).pools = AMap.set s2.pools id np := by
@@ -217,8 +220,83 @@ theorem inv_createPool {s s' : State} {id sender desc lpt start rpb total editab
     have he := expected_new (s' := enqueue { s2 with seq := s2.seq + 1, pools := AMap.set s2.pools id np } id (start + (m : Int))) hnone hpe d
     unfold C05.poolHolds at he
     rw [hnp_locked, hnp_rules, remainingIn_newRules] at he
-    unfold gap at g0 g1 g2 ⊢
+    unfold gap at g2 ⊢
     rw [hbank]
     split at he <;> omega
+
+theorem inv_createPool {s s' : State} {id sender desc lpt start rpb total editable} (hi : Inv s)
+    (hu : isModuleAcc sender = false)
+    (h : stepCreatePool s id sender desc lpt start rpb total editable = .ok s') : Inv s' := by
+  obtain ⟨une1, _, _⟩ := user_ne hu
+  unfold stepCreatePool at h
+  split at h; · cases h
+  rename_i hs
+  split at h; · cases h
+  split at h; · cases h
+  split at h; · cases h
+  rename_i htot
+  split at h; · cases h
+  rename_i u hvr
+  split at h; · cases h
+  rename_i hst
+  split at h; · cases h
+  split at h; · cases h
+  split at h; · cases h
+  rename_i s1 h1
+  split at h; · cases h
+  rename_i s2 h2
+  simp only [Bool.not_eq_true', Bool.and_eq_false_iff, not_or, Bool.not_eq_false] at hs
+  have b1 := deductFee_ok h1
+  have b2 := (sendAll_ok h2).1
+  have b12 := b1.trans b2
+  have hpos : ∀ c ∈ total, 0 < c.2 := by
+    unfold validateReward at hvr
+    split at hvr; · cases hvr
+    rename_i hlen
+    split at hvr; · cases hvr
+    exact validateRewardLoop_pos hvr (by simp at hlen; omega)
+  refine (inv_createCore (core_bankOnly b12 hi.core) (Stakes.of_same b12.sameStakes hi.stakes)
+    ?_ (Or.inl hu) hs.2 htot hpos (by rw [b12.height]; omega) h).withUsers
+    (cpUsers_of_cp ((createPoolCore_cp h).trans b12.cp) hi.cpu)
+  intro d
+  have g0 := (moduleAccount_iff s).mp hi.modacc d
+  have g1 := gap_deductFee une1 h1 d
+  have g2 := gap_send_in une1 h2 d
+  omega
+
+/-! ### community-pool operations on the bundle -/
+
+theorem inv0_cpFrame {s s' : State} (f : CpFrame s s') (hi : Inv0 s) : Inv0 s' := by
+  refine ⟨core_quiet f.quiet hi.core, Stakes.of_same f.quiet.sameStakes hi.stakes, ?_⟩
+  rw [moduleAccount_iff]
+  intro d
+  have g0 := (moduleAccount_iff s).mp hi.modacc d
+  unfold gap C05.expectedFarm at g0 ⊢
+  rw [f.farm d, f.quiet.pools]; exact g0
+
+theorem mem_nonzero' {cs : CoinList} {c : Denom × Nat} (h : c ∈ nonzero cs) : c.2 ≠ 0 := by
+  unfold nonzero at h
+  simp only [List.mem_filter, decide_eq_true_eq] at h
+  exact h.2
+
+/-- the handler of a passed community-pool proposal ran: a pool funded from the escrow collector,
+owned by the distribution module account -/
+theorem inv0_handlerRan {sa s2 : State} {c : Content} (hi : Inv0 sa) (h : HandlerRan sa s2 c) : Inv0 s2 := by
+  obtain ⟨_, hne, hsort, s1, h1, h2⟩ := h
+  have b1 := (sendAll_ok h1).1
+  refine inv_createCore (core_bankOnly b1 hi.core) (Stakes.of_same b1.sameStakes hi.stakes) ?_ (Or.inr rfl) hsort hne ?_
+    (Int.le_refl _) h2
+  · intro d
+    have g0 := (moduleAccount_iff sa).mp hi.modacc d
+    have g1 := gap_send_in escrow_ne.1 h1 d
+    omega
+  · intro x hx
+    have : x.2 ≠ 0 := mem_nonzero' (cs := c.selfBond.foldl (fun acc c => addCoin c acc) c.applied) hx
+    omega
+
+theorem inv0_cpEffect {s s' : State} (h : CpEffect s s') (hi : Inv0 s) : Inv0 s' := by
+  cases h with
+  | frame f => exact inv0_cpFrame f hi
+  | created sa s2 c f1 hd f2 => exact inv0_cpFrame f2 (inv0_handlerRan (inv0_cpFrame f1 hi) hd)
 
 end Irismod.Proofs.Farm
